@@ -14,7 +14,7 @@
 //   case <id> | unit <bytes> | stack <kb> | timeout <s> | fault <k> <t|p> | dev <slot> <raw|tiff|tiff-json|trash>
 //   path <pid> <name-relative-to-workdir> | meta <mid> <json text to end of line>
 //   op open <slot> | op set <slot> <pid> <plain|file> <mid|-> <sx> <sy> | op start <slot> | op stop <slot> | op close <slot>
-//   op append <slot> <w,h,type,pad,id,hw,trt,thw> ...          (any op may end with:  sw <F|H|Z|S<n>>,...)
+//   op append <slot> <w,h,type,pad,id,hw,trt,thw> ...          (any op may end with:  sw <F|H|Z|S<n>|h<u>>,...)
 //   end
 #include "device/hal/storage.h"
 #include "device/hal/device.manager.h"
@@ -258,6 +258,10 @@ __wrap_pwrite(int vfd, const void* buf, size_t n, off_t off)
             else if (t[0] == 'S') {
                 size_t k = strtoul(t.c_str() + 1, 0, 10);
                 m = k < n ? k : n;
+            } else if (t[0] == 'h') { // half of the cells, rounded up, for a cell size of u bytes
+                size_t u = strtoul(t.c_str() + 1, 0, 10);
+                size_t c = u ? n / u : 0;
+                m = (u && c > 1 && n % u == 0) ? ((c + 1) / 2) * u : n;
             }
         }
         if (!mapped(vfd)) {
@@ -314,9 +318,12 @@ __wrap_access(const char* path, int mode)
 }
 
 // ------------------------------------------------------------------------------------------------ driver plumbing
+static bool g_verbose = false; // FILES_SEQ_LOG=1: print the library's log lines to stderr
 static void
-reporter(int, const char*, int, const char*, const char*)
+reporter(int is_error, const char* file, int line, const char* function, const char* msg)
 {
+    if (g_verbose)
+        fprintf(stderr, "%s%s(%d) %s: %s\n", is_error ? "ERROR " : "", file, line, function, msg);
 }
 static struct Driver* g_driver = 0;
 extern "C" struct Driver*
@@ -612,6 +619,7 @@ main(int argc, char** argv)
         perror("trace");
         return 2;
     }
+    g_verbose = getenv("FILES_SEQ_LOG") != 0;
     logger_set_reporter(reporter);
     g_driver = acquire_driver_init_v0(reporter);
     if (!g_driver) {
